@@ -1743,6 +1743,13 @@ pub struct ConnectionH2<Front: SocketHandler> {
     /// RFC 9113 §6.8: tracks stream IDs for which RST_STREAM has already been sent,
     /// preventing duplicate RST_STREAM frames on the wire.
     pub rst_sent: HashSet<StreamId>,
+    /// `Position::Client` only: streams whose HEADERS have been (or are being)
+    /// put on the wire toward the backend. A stream can be attached to the
+    /// connection before the backend's SETTINGS are known (admitted against the
+    /// default limit); it is only opened on the wire while fewer than the
+    /// backend's SETTINGS_MAX_CONCURRENT_STREAMS are open (RFC 9113 §5.1.2),
+    /// lowest stream id first (§5.1.1).
+    pub wire_opened: HashSet<StreamId>,
     /// Lifetime counter of RST_STREAM frames queued (pending + already flushed).
     /// Used to detect sustained misbehavior even when writable() drains the
     /// pending queue between readable() calls.
@@ -1949,6 +1956,7 @@ impl<Front: SocketHandler> ConnectionH2<Front> {
             settings_sent_at: None,
             pending_rst_streams: Vec::new(),
             rst_sent: std::collections::HashSet::new(),
+            wire_opened: std::collections::HashSet::new(),
             total_rst_streams_queued: 0,
             priorities_buf: Vec::new(),
             close_notify_sent: false,
@@ -2972,6 +2980,21 @@ impl<Front: SocketHandler> ConnectionH2<Front> {
             // Hoisted out of the gate below so the post-flush flow-control-stall
             // classification can see how many flow-control bytes this pass moved.
             let mut consumed: i32 = 0;
+            // RFC 9113 §5.1.2: toward a backend, a stream that is not yet on the wire
+            // is opened only below the peer's MAX_CONCURRENT_STREAMS, lowest id first.
+            if self.position.is_client() && !self.wire_opened.contains(&stream_id) {
+                let limit = self.peer_settings.settings_max_concurrent_streams as usize;
+                let lowest_unopened = self
+                    .streams
+                    .keys()
+                    .filter(|id| !self.wire_opened.contains(id))
+                    .min()
+                    .copied();
+                if self.wire_opened.len() >= limit || lowest_unopened != Some(stream_id) {
+                    continue;
+                }
+                self.wire_opened.insert(stream_id);
+            }
             if kawa.is_main_phase()
                 || (kawa.is_terminated() && !kawa.is_completed())
                 || (kawa.is_error() && !self.rst_sent.contains(&stream_id))
@@ -3396,6 +3419,13 @@ impl<Front: SocketHandler> ConnectionH2<Front> {
             );
         }
         self.rst_sent.remove(&stream_id);
+        if self.wire_opened.remove(&stream_id)
+            && self.streams.keys().any(|id| !self.wire_opened.contains(id))
+        {
+            // a slot below the backend's MAX_CONCURRENT_STREAMS was freed: a stream
+            // waiting to be opened on the wire gets its turn
+            self.readiness.arm_writable();
+        }
         self.stream_last_activity_at.remove(&stream_id);
         self.stream_fc_stalled_since.remove(&stream_id);
         self.stream_fc_stalled_progress.remove(&stream_id);
@@ -5744,7 +5774,7 @@ impl<Front: SocketHandler> ConnectionH2<Front> {
                     self.pending_table_size_update = Some(capped);
                 },
                 parser::SETTINGS_ENABLE_PUSH       => { self.peer_settings.settings_enable_push = v == 1;             is_error |= v > 1 },
-                parser::SETTINGS_MAX_CONCURRENT_STREAMS => { self.peer_settings.settings_max_concurrent_streams = v },
+                parser::SETTINGS_MAX_CONCURRENT_STREAMS => { self.peer_settings.settings_max_concurrent_streams = v; if self.position.is_client() { self.readiness.arm_writable(); } },
                 parser::SETTINGS_INITIAL_WINDOW_SIZE    => {
                     // RFC 9113 §6.5.2 / §6.9.2: a value above 2^31-1, or a change that
                     // pushes a stream window above 2^31-1, is a connection error of
